@@ -402,6 +402,15 @@ about the wrapper's shape (translated leaf); the threads are exercised by the ha
 theorem C08_sync_unregister_waits : syncUnregisterGoodbyesOnReturn = 3 := by
   simp [syncUnregisterGoodbyesOnReturn, sync_wrappers_await.1, Zc.GenFacts.Register.broadcast_count_eq]
 
+/-- an info whose records cannot be put on the wire never reaches the registry: `async_update_service` and `async_register_service` run the
+dry-run encoding (which raises to the caller) before `registry.async_update` / `async_add`.  The blocks `update` / `register` of the machine
+are the *accepted* calls; a refused one is no block at all — were the order the other way round (seeded defect C08-w5-seed2) the refused
+info would sit in the registry and the goodbye of **every** service would raise in `packets()` at the next unregister-all / close.
+A statement about the order of two calls (translated leaves); the harness attempts refused updates before closing (`gen_refused_update`). -/
+theorem C08_refused_call_leaves_registry :
+    Gen.Register.update_encodes_before_registry = true ∧ Gen.Register.register_encodes_before_registry = true :=
+  refused_before_registry
+
 /-! ### the English-level reading: "its PTR, SRV, TXT records" by owner name and type (known finding D20) -/
 
 /-- `r` is one of "those records" of the service instance `s`, whatever its rdata: SRV / TXT owned by the instance name, a PTR to it,
